@@ -191,6 +191,45 @@ def witnesses(c):
         if impl_parse(b, 0) is not None:
             c.fail("structurally invalid PSBT accepted (%s)" % name, {"op": "psbt.parse", "kind": name, "bytes": hx(b)})
         c.expect("psbt.parse 0 " + hx(b), "none", info, proven=True)
+    # C04X.utxo_duplicate_rejected_all_modes / utxo_duplicate_parse_rejected_v0 / _v2: key 00 twice in an input scope,
+    # every reader mode; with the key once every mode accepts (positive control)
+    prev = gen.raw_tx(2, [(bytes([9] * 32), 0, b"\x51", 0xfffffffe)], [(1, b"\x51"), (5000, b"\x6a")], 0)
+    for name, once, twice in (
+            ("v2", frame([G, I + [(b"\x00", prev)], O]), frame([G, I + [(b"\x00", prev), (b"\x00", prev)], O])),
+            ("v0", frame([G0, [(b"\x00", prev)], []]), frame([G0, [(b"\x00", prev), (b"\x04", b"\x51"), (b"\x00", prev)], []]))):
+        for compress in (0, 1, 2):
+            c.count(("reject", "utxo_duplicate", name, compress), nontrivial=True)
+            c.tally("reject:utxo_duplicate_all_modes")
+            info = {"kind": "reject:utxo_duplicate_%s" % name, "compress": compress, "bytes": hx(twice)}
+            if impl_parse(once, compress) is None:
+                c.broken.append(("witness", "the base case of utxo_duplicate (%s, mode %d) is not accepted" % (name, compress)))
+            if impl_parse(twice, compress) is not None:
+                c.fail("PSBT with a duplicated non-witness utxo accepted in reader mode %d (%s)" % (compress, name),
+                       {"op": "psbt.parse", "kind": "utxo_duplicate_" + name, "compress": compress, "bytes": hx(twice)})
+            c.expect("psbt.parse %d %s" % (compress, hx(twice)), "none", info, proven=True)
+
+
+# Input-scope fields the memory-saving reader modes (compress = 1 / 2) do not keep: `InputScope.read_value` returns
+# before looking at key or value ("we don't need this key for signing"): partial signatures (02), final scriptSig (07),
+# final script witness (08). A duplicate of such a key is skipped unread like the first occurrence, nothing of it
+# reaches the object, so no rejection is demanded for them in modes 1 / 2. Every other key of every scope is kept by
+# every mode and a duplicate must be refused (for key 00 the modes keep only `_txhash` / `_utxo`: finding B3, fixed by
+# fixes/fix-compress-dup-utxo.diff; model side: C04X.utxo_duplicate_rejected_all_modes).
+SKIPPED_IN_MODES_1_2 = (0x02, 0x07, 0x08)
+
+
+def dup_must_reject(kind, compress):
+    """does the rejection predicate apply to the corruption `kind` in reader mode `compress`? KEEP_ALL: always (the
+    caller's `must_reject`). Modes 1 / 2: for duplicated keys (`dup-pair:<scope>:<type>`, `dup-key:…`, `dup-tx`) of
+    every field the mode keeps."""
+    if compress == 0:
+        return True
+    parts = kind.split(":")
+    if parts[0] == "dup-tx":
+        return True
+    if parts[0] not in ("dup-pair", "dup-key") or len(parts) != 3:
+        return False
+    return not (parts[1] == "in" and int(parts[2], 16) in SKIPPED_IN_MODES_1_2)
 
 
 def check_bytes(c, kind, b, must_reject=None, g=None):
@@ -224,6 +263,14 @@ def check_bytes(c, kind, b, must_reject=None, g=None):
                     check_lossless(c, b, p, kind, g)
             elif must_reject is False:
                 c.fail("valid generated PSBT rejected", {"op": "psbt.parse", "kind": kind, "bytes": hx(b)[:20000]})
+        elif must_reject and dup_must_reject(kind, compress):
+            # the memory-saving modes: a duplicated key of a field the mode keeps (audit C4)
+            c.tally("dup-in-mode-%d:%s" % (compress, "rejected" if p is None and res == "none" else "ACCEPTED"))
+            if res != "none":
+                c.fail("PSBT with a duplicated key accepted in reader mode %d (%s)" % (compress, kind),
+                       {"op": "psbt.parse", "kind": kind, "compress": compress, "bytes": hx(b)[:20000]})
+        elif must_reject and kind.split(":")[0] in ("dup-pair", "dup-key"):
+            c.tally("dup-in-mode-%d:skipped-field-not-kept" % compress)
 
 
 def check_psbt(c, g, corrupt=True):
@@ -261,7 +308,9 @@ def run(tier, seed):
               "every BIP174/370/371 field type with random presence and order, unknown and proprietary keys, in binary, hex and "
               "base64; plus single-step corruptions (magic, truncation at sampled offsets, trailing byte, duplicated pair, "
               "duplicated key, dropped/extra separator, tx in v2, missing/duplicated tx in v0, swapped scopes, odd-length keys "
-              "and values, bit flips); each parsed in the three compression modes. Distinct by content.")
+              "and values, bit flips); each parsed in the three compression modes; the rejection predicate is evaluated in "
+              "mode 0 for every structural corruption and in modes 1 / 2 for duplicated keys of every field the mode keeps "
+              "(input fields 02 / 07 / 08 are skipped unread there). Distinct by content.")
     c.assumptions = ["public-key validity inside keys is abstract in the theorems (KeyOps); the driver uses its own secp256k1",
                      "PSBTv2 required-locktime fields are carried as unknown keys (embit implements the fallback locktime "
                      "only; C04X.v2_tx_eq_bip370_partial excludes them, witness required_locktime_ignored)",
